@@ -511,7 +511,28 @@ fn layout_class(case: &Case, text: &str, stderr: &str) -> Option<String> {
                 }
             }
             let base_with_vb = anc.iter().any(|b| has_vb(*b));
-            Some(if base_with_vb {
+            // the same empty class as a base more than once (directly and through another base):
+            // C++ may not give two subobjects of one type the same address, so the empty-base
+            // optimisation is off for the second one; bindgen gives both no storage (known finding)
+            let is_empty = |k: usize| matches!(g.nodes[k].kind, c07::NodeKind::Class) && g.nodes[k].fields.is_empty() && !g.nodes[k].virtual_method && g.nodes[k].bases.is_empty() && g.nodes[k].tbases.is_empty();
+            fn count_bases(g: &c07::Graph, k: usize, counts: &mut std::collections::BTreeMap<usize, usize>, depth: usize) {
+                if depth > 12 {
+                    return;
+                }
+                for b in g.nodes[k].bases.iter().copied().chain(g.nodes[k].tbases.iter().map(|(b, _)| *b)) {
+                    let b = if let c07::NodeKind::AliasTemplate(t) = &g.nodes[b].kind { *t } else { b };
+                    *counts.entry(b).or_default() += 1;
+                    count_bases(g, b, counts, depth + 1);
+                }
+            }
+            let repeated_empty_base = seen.iter().chain(std::iter::once(&n)).any(|k| {
+                let mut counts = std::collections::BTreeMap::new();
+                count_bases(&g, *k, &mut counts, 0);
+                counts.iter().any(|(b, c)| *c >= 2 && is_empty(*b))
+            });
+            Some(if repeated_empty_base {
+                "layout-assertion/cpp-repeated-empty-base".into()
+            } else if base_with_vb {
                 "layout-assertion/cpp-base-with-virtual-bases".into()
             } else if has_vb(n) {
                 "layout-assertion/cpp-virtual-base".into()
